@@ -6,7 +6,7 @@
         -> the same tags prefixed by G: one character per entry, '1' when some decision on a COMPUTED value
            (interpolated / intersected) was closer to a tie than 1e-9 relative -- a rounding difference of the
            double-precision kernel is possible there
-     W03 <id> <expandP>      -> W03F <id> w...  /  W03B <id> w...   per-vertex sums over ALL faces
+     W03 <id> <expandP> [capW] -> W03F <id> w...  /  W03B <id> w...   per-vertex sums over ALL faces
      FLOOD <id> <expandP> <n12> e... <n21> e...   (broken halfedges of P resp. Q)
         -> FLF <id> w... / FLB <id> w...  the Winding03 model: union of unbroken edges, value of the representative *)
 open C02k_model
@@ -133,8 +133,9 @@ let () =
             let faces n = List.init n (fun i -> z_of_int i) in
             let w fw (a : kmesh_raw) (b : kmesh_raw) v =
               timed (fun () -> match w03_sum_g gen_shadowsQ shc_instr ex fw a.km b.km (faces b.nf) (z_of_int v) with None -> 99 | Some s -> int_of_z s) in
-            emit "W03F" id (List.init p.nv (w true p q));
-            emit "W03B" id (List.init q.nv (w false q p))
+            let capW = if Array.length toks > 3 then int_of_string toks.(3) else max_int in
+            emit "W03F" id (List.init (min capW p.nv) (w true p q));
+            emit "W03B" id (List.init (min capW q.nv) (w false q p))
           | "FLOOD" ->
             let id = toks.(1) and ex = toks.(2) = "1" in
             let p = Hashtbl.find kmeshes ("P" ^ id) and q = Hashtbl.find kmeshes ("Q" ^ id) in
@@ -150,8 +151,12 @@ let () =
                 match Hashtbl.find_opt memo k with Some v -> v | None ->
                   let v = (match w03_sum_g gen_shadowsQ gen_shadowsQ ex fw a.km b.km (faces b.nf) r with None -> z_of_int 99 | Some s -> s) in
                   Hashtbl.replace memo k v; v in
-              let w = winding03 edges wroot in
-              List.init a.nv (fun i -> (int_of_z (w (z_of_int i)), false)) in
+              (* uf_build = fold_left uf_unite edges uf_init and winding03 = wroot o find, with the representative map
+                 tabulated after every unite (the extracted closures would otherwise be re-evaluated exponentially often) *)
+              let tab (u : z -> z) = let t = Array.init a.nv (fun i -> u (z_of_int i)) in
+                fun i -> let k = int_of_z i in if k >= 0 && k < a.nv then t.(k) else i in
+              let u = List.fold_left (fun u (x, y) -> tab (uf_unite u x y)) (tab uf_init) edges in
+              List.init a.nv (fun i -> (int_of_z (wroot (uf_find u (z_of_int i))), false)) in
             emit "FLF" id (fl true p q b12);
             emit "FLB" id (fl false q p b21)
           | "KDROP" -> Hashtbl.remove kmeshes ("P" ^ toks.(1)); Hashtbl.remove kmeshes ("Q" ^ toks.(1))
